@@ -17,14 +17,23 @@ HARNESSES = [
          cases=[dict(name="%s_op%d" % (nm, op), defs={"VF_VER": v, "VF_OP": op})
                 for nm, v in (("tls12", "(v_tls_1_2|v_tls_negotiated)"), ("tls11", "(v_tls_1_1|v_tls_negotiated)"), ("dtls12", "(v_dtls_1_2|v_tls_negotiated)")) for op in (0, 1)]),
 ]
+HARNESSES.append(dict(
+    name="ks13", src="ks13.c", checks=COMMON["MEMCHECKS"],
+    units=["matrixssl/hsNegotiateVersion.c"],
+    functions=["tls13DeriveHandshakeTrafficSecrets", "tls13DeriveAppTrafficSecrets", "tls13DeriveResumptionMasterSecret", "tls13DeriveHandshakeKeys",
+               "tls13DeriveSecret", "tls13GenerateEarlySecret", "tls13DeriveEarlySecrets"],
+    sources=["matrixssl/tls13KeySchedule.c"],
+    assumptions=["ks13: full (non-PSK) TLS 1.3 handshake with a SHA-256 suite; psHkdfExtract / psHkdfExpandLabel are logging stubs with arbitrary outputs and arbitrary failure; tls13GenSharedSecret returns an arbitrary 32-byte (EC)DHE secret or fails; heap = static-pool model"],
+    undefined_ok="*", unwind=70,
+    cases=[dict(name="op%d" % o, defs={"VF_OP": o}) for o in (0, 1, 2)]))
 # RFC 8446 7.1 HkdfLabel encoding: the C12 harness for psHkdfExpandLabel
 import os as _os
 _g12 = {"__file__": _os.path.join(_os.path.dirname(__file__), "..", "C12", "spec.py"), "COMMON": COMMON}
 exec(compile(open(_g12["__file__"]).read(), _g12["__file__"], "exec"), _g12)
 HARNESSES += [dict(h, dir="C12", name="hkdf_label13") for h in _g12["HARNESSES"] if h["name"] == "hkdf_label"]
 PROPERTY = dict(level='model_checking',
-    claim='Seal side of the record protection glue follows RFC 5288 / RFC 8446 5.2-5.3: nonce, AAD, ciphertext followed by a 16-byte tag, sequence number advanced by one. RFC 7627 session_hash and the Finished verify_data use SHA-384 (hash and PRF) exactly for the suites the IANA registry names *_SHA384, SHA-256 for every other TLS 1.2 suite and MD5+SHA-1 below TLS 1.2, for every suite of the real table. The TLS 1.3 finite-field shared secret is left-padded with zeros to the size of the prime (RFC 8446 7.4.1). HKDF-Expand-Label passes exactly the RFC 8446 7.1 HkdfLabel encoding to HKDF-Expand.',
+    claim='Seal side of the record protection glue follows RFC 5288 / RFC 8446 5.2-5.3: nonce, AAD, ciphertext followed by a 16-byte tag, sequence number advanced by one. RFC 7627 session_hash and the Finished verify_data use SHA-384 (hash and PRF) exactly for the suites the IANA registry names *_SHA384, SHA-256 for every other TLS 1.2 suite and MD5+SHA-1 below TLS 1.2, for every suite of the real table. The TLS 1.3 finite-field shared secret is left-padded with zeros to the size of the prime (RFC 8446 7.4.1). HKDF-Expand-Label passes exactly the RFC 8446 7.1 HkdfLabel encoding to HKDF-Expand; the TLS 1.3 key schedule of a full handshake (early secret, derived, handshake secret, c/s hs traffic, master secret, c/s ap traffic, res master, key/iv) chains the right secrets under the right labels over the right transcript hashes.',
     bounds='record lengths 1..40 enumerated',
-    outside='interoperation with an independent stack cannot be a solver query; the TLS 1.2 PRF body, the order of key-schedule derivations and the labels chosen by the callers are not encoded',
+    outside='interoperation with an independent stack cannot be a solver query; the TLS 1.2 PRF body, PSK / early-data branches of the key schedule, exporters',
     explanation='Seal side of the record protection glue follows RFC 5288 / RFC 8446 5.2-5.3: nonce, AAD, ciphertext followed by a 16-byte tag, sequence number advanced by one.',
     assumptions=[])
